@@ -243,6 +243,84 @@ pub fn run(args: &[Sx]) -> Sx {
     a
 }
 
+/// One operation on the matrix under test; Err(code): two API forms that must agree did not.
+fn apply<E: Elem>(m: &mut Matrix<E>, o: Op) -> Result<bool, i64> {
+    let fine = match o {
+        Op::InsertRow(r, v) => guarded(|| m.insert_row(r, E::of(v))).is_some(),
+        Op::InsertRowWith(r, vs) => guarded(|| m.insert_row_with(r, elems::<E>(vs).into_iter())).is_some(),
+        Op::InsertColumn(c, v) => guarded(|| m.insert_column(c, E::of(v))).is_some(),
+        Op::InsertColumnWith(c, vs) => guarded(|| m.insert_column_with(c, elems::<E>(vs).into_iter())).is_some(),
+        Op::RemoveRow(r) => guarded(|| m.remove_row(r)).is_some(),
+        Op::RemoveColumn(c) => guarded(|| m.remove_column(c)).is_some(),
+        Op::RetainMut(r, c) => guarded(|| m.retain_mut(slice2d(&r, &c))).is_some(),
+        Op::Retain(r, c) => {
+            // both builder orders describe the same Slice2D
+            let a = guarded(|| m.retain(slice2d(&r, &c)));
+            let b = guarded(|| m.retain(slice2d_other_order(&r, &c)));
+            match (a, b) {
+                (Some(a), Some(b)) => {
+                    if a != b {
+                        return Err(1120);
+                    }
+                    *m = a;
+                    true
+                }
+                (None, None) => false,
+                _ => return Err(1121),
+            }
+        }
+        Op::Transpose => match guarded(|| m.transpose()) {
+            Some(t) => {
+                *m = t;
+                true
+            }
+            None => false,
+        },
+        Op::TransposeMut => guarded(|| m.transpose_mut()).is_some(),
+        Op::Set(r, c, v) => {
+            // every way of writing one element must agree with `set`
+            let mut a = m.clone();
+            let wrote_a = guarded(|| *a.get_reference_mut(r, c) = E::of(v)).is_some();
+            let mut b = m.clone();
+            let wrote_b = match guarded(|| b.try_get_reference_mut(r, c).map(|cell| *cell = E::of(v))) {
+                Some(Some(())) => true,
+                Some(None) => false,
+                None => return Err(1130),
+            };
+            let wrote = guarded(|| m.set(r, c, E::of(v))).is_some();
+            if wrote_a != wrote || wrote_b != wrote || a != *m || b != *m {
+                return Err(1131);
+            }
+            if wrote {
+                let mut d = m.clone();
+                unsafe { *d.get_reference_unchecked_mut(r, c) = E::of(v) };
+                if d != *m || unsafe { m.get_reference_unchecked(r, c).val() } != v {
+                    return Err(1132);
+                }
+            }
+            wrote
+        }
+        Op::MapMut(k) => {
+            let mapped = guarded(|| m.map(|x| E::of(x.val() + k)));
+            let fine = guarded(|| m.map_mut(|x| E::of(x.val() + k))).is_some();
+            if mapped.as_ref() != Some(&*m) || !fine {
+                return Err(1133);
+            }
+            fine
+        }
+        Op::MapMutWithIndex(k) => {
+            let f = |x: E, i: usize, j: usize| E::of(x.val() + k * (10 * i as i64 + j as i64 + 1));
+            let mapped = guarded(|| m.map_with_index(f));
+            let fine = guarded(|| m.map_mut_with_index(f)).is_some();
+            if mapped.as_ref() != Some(&*m) || !fine {
+                return Err(1134);
+            }
+            fine
+        }
+    };
+    Ok(fine)
+}
+
 fn history<E: Elem>(args: &[Sx]) -> Sx {
     if args.len() != 3 || args[0].i64() != Some(1) {
         return bad_case();
@@ -254,80 +332,25 @@ fn history<E: Elem>(args: &[Sx]) -> Sx {
     let Some(mut m) = first else { return panicked() };
     let mut out = vec![observe(&m)];
     for o in ops {
-        let fine = match o {
-            Op::InsertRow(r, v) => guarded(|| m.insert_row(r, E::of(v))).is_some(),
-            Op::InsertRowWith(r, vs) => guarded(|| m.insert_row_with(r, elems::<E>(vs).into_iter())).is_some(),
-            Op::InsertColumn(c, v) => guarded(|| m.insert_column(c, E::of(v))).is_some(),
-            Op::InsertColumnWith(c, vs) => guarded(|| m.insert_column_with(c, elems::<E>(vs).into_iter())).is_some(),
-            Op::RemoveRow(r) => guarded(|| m.remove_row(r)).is_some(),
-            Op::RemoveColumn(c) => guarded(|| m.remove_column(c)).is_some(),
-            Op::RetainMut(r, c) => guarded(|| m.retain_mut(slice2d(&r, &c))).is_some(),
-            Op::Retain(r, c) => {
-                // both builder orders describe the same Slice2D
-                let a = guarded(|| m.retain(slice2d(&r, &c)));
-                let b = guarded(|| m.retain(slice2d_other_order(&r, &c)));
-                match (a, b) {
-                    (Some(a), Some(b)) => {
-                        if a != b {
-                            return inconsistent(1120);
-                        }
-                        m = a;
-                        true
-                    }
-                    (None, None) => false,
-                    _ => return inconsistent(1121),
-                }
-            }
-            Op::Transpose => match guarded(|| m.transpose()) {
-                Some(t) => {
-                    m = t;
-                    true
-                }
-                None => false,
-            },
-            Op::TransposeMut => guarded(|| m.transpose_mut()).is_some(),
-            Op::Set(r, c, v) => {
-                // every way of writing one element must agree with `set`
-                let mut a = m.clone();
-                let wrote_a = guarded(|| *a.get_reference_mut(r, c) = E::of(v)).is_some();
-                let mut b = m.clone();
-                let wrote_b = match guarded(|| b.try_get_reference_mut(r, c).map(|cell| *cell = E::of(v))) {
-                    Some(Some(())) => true,
-                    Some(None) => false,
-                    None => return inconsistent(1130),
-                };
-                let wrote = guarded(|| m.set(r, c, E::of(v))).is_some();
-                if wrote_a != wrote || wrote_b != wrote || a != m || b != m {
-                    return inconsistent(1131);
-                }
-                if wrote {
-                    let mut d = m.clone();
-                    unsafe { *d.get_reference_unchecked_mut(r, c) = E::of(v) };
-                    if d != m || unsafe { m.get_reference_unchecked(r, c).val() } != v {
-                        return inconsistent(1132);
-                    }
-                }
-                wrote
-            }
-            Op::MapMut(k) => {
-                let mapped = guarded(|| m.map(|x| E::of(x.val() + k)));
-                let fine = guarded(|| m.map_mut(|x| E::of(x.val() + k))).is_some();
-                if mapped.as_ref() != Some(&m) || !fine {
-                    return inconsistent(1133);
-                }
-                fine
-            }
-            Op::MapMutWithIndex(k) => {
-                let f = |x: E, i: usize, j: usize| E::of(x.val() + k * (10 * i as i64 + j as i64 + 1));
-                let mapped = guarded(|| m.map_with_index(f));
-                let fine = guarded(|| m.map_mut_with_index(f)).is_some();
-                if mapped.as_ref() != Some(&m) || !fine {
-                    return inconsistent(1134);
-                }
-                fine
-            }
+        let fine = match apply(&mut m, o) {
+            Ok(fine) => fine,
+            Err(code) => return inconsistent(code),
         };
         out.push(l(vec![z(if fine { 0 } else { 2 }), observe(&m)]));
     }
     ok(l(out))
+}
+
+/// The i64 matrix a history ends with (used by C12 to partition a matrix that has been resized):
+/// None = not in the case language, Some(None) = the constructor panicked.
+pub fn final_matrix(start_sx: &Sx, ops_sx: &Sx) -> Option<Option<Matrix<i64>>> {
+    let first = start::<i64>(start_sx)?;
+    let ops = ops_sx.list().and_then(|v| v.iter().map(op).collect::<Option<Vec<Op>>>())?;
+    let Some(mut m) = first else { return Some(None) };
+    for o in ops {
+        if apply(&mut m, o).is_err() {
+            return None;
+        }
+    }
+    Some(Some(m))
 }
